@@ -189,8 +189,7 @@ def _sl_trace(filtered):
             okp = (ops.equals(m, pf.get("depth"), E.lookup("depth")) is True and pf.get("_coordsys") == E.lookup("coordsys")
                    and ((pf.get("_tile_filter") is None) if not filtered else _par._same(pf.get("_tile_filter"), E.lookup("tile_filter"))))
         path.oblige(m.oblname("pyramid_has_the_requested_depth_coordinate_system_and_filter"), z3.BoolVal(bool(okp)), kind="trace", assume_after=False)
-        g = ops.equals(m, a.get("parallel"), E.lookup("parallel"))
-        path.oblige(m.oblname("worker_count_is_forwarded"), g if not isinstance(g, bool) else z3.BoolVal(g), kind="trace", assume_after=False)
+        # (the number of workers is deliberately NOT demanded: the property says the result does not depend on it)
     return hook
 
 
